@@ -96,10 +96,17 @@ def expr(w, e):
     elif k == "raw":
         w.w(e[1])
     elif k == "bin":
+        if getattr(w, "minparen", False):
+            bin_min(w, e, 0, "L")
+        else:
+            w.w("(")
+            expr(w, e[2])
+            w.w(" " + e[1] + " ")
+            expr(w, e[3])
+            w.w(")")
+    elif k == "paren":
         w.w("(")
-        expr(w, e[2])
-        w.w(" " + e[1] + " ")
-        expr(w, e[3])
+        expr(w, e[1])
         w.w(")")
     elif k == "neg":
         w.w("(-")
@@ -152,6 +159,7 @@ def expr(w, e):
         w.w("get ")
         w.mark(e, ("operand", id(e)))
         atom(w, e[1])
+        w.mark(e, ("end", id(e)))
         w.w(")")
     elif k == "or":
         w.w("(")
@@ -159,6 +167,9 @@ def expr(w, e):
         w.w(" or ")
         expr(w, e[2])
         w.w(")")
+    elif k == "unwrap_stmt":
+        w.w(e[1] + " ?= ")
+        expr(w, e[2])
     elif k == "unwrap":
         w.w("(" + e[1] + " ?= ")
         expr(w, e[2])
@@ -173,9 +184,41 @@ def expr(w, e):
         raise ValueError(e)
 
 
+PREC = {"is": 1, "||": 5, "^": 5, "&&": 6, "<": 7, "<=": 7, ">": 7, ">=": 7, "==": 7, "!=": 7, "|": 8, "&": 8, "xor": 9,
+        "<<": 10, ">>": 10, "+": 11, "-": 11, "*": 12, "/": 12, "%": 12}
+
+
+def bin_min(w, e, parent, side):
+    """print a binary expression with only the parentheses the precedence table (all operators left-associative) needs"""
+    if e[0] == "paren":
+        w.w("(")
+        bin_min(w, e[1], 0, "L")
+        w.w(")")
+        return
+    if e[0] != "bin":
+        if e[0] in ("or",):
+            expr(w, e)
+        else:
+            atom(w, e)
+        return
+    p = PREC[e[1]]
+    need = p < parent or (p == parent and side == "R")
+    if need:
+        w.w("(")
+    bin_min(w, e[2], p, "L")
+    w.w(" " + e[1] + " ")
+    bin_min(w, e[3], p, "R")
+    if need:
+        w.w(")")
+
+
 def atom(w, e):
     """an operand position that must be a math_primary: wrap anything that is not one."""
-    if e[0] in ("lit", "var", "nil", "bin", "neg", "not", "get", "or", "unwrap", "list", "raw"):
+    if e[0] == "bin" and getattr(w, "minparen", False):
+        w.w("(")
+        bin_min(w, e, 0, "L")
+        w.w(")")
+    elif e[0] in ("lit", "var", "nil", "bin", "neg", "not", "get", "or", "unwrap", "list", "raw", "paren"):
         if e[0] == "lit" and (e[2] < 0 if e[1] in ("int", "bigint", "float") else False):
             expr(w, e)
         else:
@@ -190,7 +233,11 @@ def recv(w, e):
     """receiver of one postfix: a plain variable or a parenthesised expression."""
     if e[0] == "var":
         w.w(e[1])
-    elif e[0] in ("bin", "neg", "not", "get", "or", "unwrap"):
+    elif e[0] == "bin" and getattr(w, "minparen", False):
+        w.w("(")
+        bin_min(w, e, 0, "L")
+        w.w(")")
+    elif e[0] in ("bin", "neg", "not", "get", "or", "unwrap", "paren"):
         expr(w, e)   # already parenthesised
     elif e[0] == "lit" and e[1] == "str":
         expr(w, e)
@@ -329,9 +376,10 @@ def if_chain(w, s):
         block(w, e)
 
 
-def program(stmts):
+def program(stmts, minparen=False):
     """-> (source text, marks {id(node): (line, col)})"""
     w = Writer()
+    w.minparen = minparen
     for s in stmts:
         stmt(w, s)
     return w.text(), w.marks
